@@ -1394,8 +1394,106 @@ def search(ctx, deep, only=None):
                     ctx.fail_input('GaussianMultivariate.sample', {'model': label, 'conditions': conds, 'seed': seed},
                                    'np.random.get_state() changed', 'seeded conditional sampling leaves the global state as it was',
                                    'GaussianMultivariate.sample:global-perturbed')
+    # ---- O13 size histories: large calls (around 2**15 and beyond) interleaved with small ones
+    if only is None:
+        for label, cls_name, build in size_models():
+            for _ in range(1 if not deep else 3):
+                seed = rng.choice(SEED_VALUES + SEEDS)
+                as_obj = rng.random() < 0.5
+                sizes = [rng.choice(BIG_NS), rng.choice(BIG_NS[1:]), 3, rng.choice(BIG_NS), rng.choice((1, 3))]
+                rng.shuffle(sizes)
+                sizes = sizes + [sizes[0]]                      # the first size again: same size, later position
+                inp = {'model': label, 'seed': seed, 'seed_as': 'RandomState' if as_obj else 'int', 'sizes': sizes}
+
+                def szfail(what, obs, req, extra=None):
+                    nonlocal found
+                    found += 1
+                    ctx.fail_input(f'{cls_name}.sample', dict(inp, **(extra or {})), obs, req, f'{cls_name}.sample:{what}')
+
+                def mk():
+                    return build(np.random.RandomState(seed) if as_obj else seed)
+                a, b, u = mk(), mk(), build(None)
+                np.random.seed(rng.randrange(1000, 10 ** 6))
+                g0 = gdig()
+                outs_a = []
+                for k, n in enumerate(sizes):
+                    s_before = mdig(a)
+                    r = a.sample(n)
+                    checks += 4
+                    if gdig() != g0:
+                        szfail('global-perturbed', 'np.random.get_state() changed', 'a seeded call leaves the global state as it was', {'call': k})
+                        g0 = gdig()
+                    if len(r) != n:
+                        szfail('rows', len(r), f'{n} rows', {'call': k})
+                    if mdig(a) == s_before:
+                        szfail('large-call-stream-not-advancing', 'random_state unchanged after the call',
+                               'the advanced state is stored back', {'call': k, 'n': n})
+                    sn = snapshot(r)
+                    for j, old_sn in enumerate(outs_a):
+                        m_ = min(len(sn[1]), len(old_sn[1]), 3)
+                        if m_ and sn[1][:m_].tobytes() == old_sn[1][:m_].tobytes():
+                            szfail('large-call-stream-not-advancing',
+                                   f'call {k} (n={n}) starts with the same {m_} rows as the earlier call {j} (n={sizes[j]}): the stream was replayed',
+                                   'successive calls consume consecutive segments of the stream', {'call': k, 'earlier_call': j})
+                            break
+                    outs_a.append(sn)
+                # reproducible from the seed, whatever the global state
+                np.random.seed(rng.randrange(1000, 10 ** 6))
+                outs_b = [snapshot(b.sample(n)) for n in sizes]
+                # the seeded stream IS the global stream started at np.random.seed(seed): an unseeded equal model
+                np.random.seed(seed)
+                outs_u = [snapshot(u.sample(n)) for n in sizes]
+                checks += 2
+                bad = [k for k, (x, y) in enumerate(zip(outs_a, outs_b)) if not snap_equal(x, y)]
+                if bad or mdig(a) != mdig(b):
+                    szfail('large-call-not-reproducible', {'calls_differing': bad, 'final_state_equal': mdig(a) == mdig(b)},
+                           'two equal models with the same seed and the same call sizes return identical streams')
+                bad = [k for k, (x, y) in enumerate(zip(outs_a, outs_u)) if not snap_equal(x, y)]
+                if bad:
+                    szfail('large-call-differs-from-global-seeded-stream', {'calls_differing': bad, 'first': bad[0], 'n': sizes[bad[0]]},
+                           'model(seed=s) driven through sample(n1), sample(n2), ... returns what the equal unseeded model returns '
+                           'after np.random.seed(s) (consecutive segments of one stream)')
     ctx.support = {'oracle_checks': checks, 'failures': found, 'deep': deep,
                    'table': 'repaired' if table.get('Univariate') else 'as-found'}
+
+
+BIG_NS = (3, 32768, 32769, 40000, 70000)
+_SIZE = None
+
+
+def size_models():
+    """sampler classes cheap enough at n ~ 70000: (label, class name, build(seed))."""
+    global _SIZE
+    if _SIZE is None:
+        from copulas import univariate as U
+        from copulas.bivariate import Clayton
+        from copulas.multivariate import GaussianMultivariate
+        g = np.random.RandomState(7)
+        xy = g.multivariate_normal([0.0, 1.0], [[1.0, 0.6], [0.6, 2.0]], size=200)
+        data = pd.DataFrame(xy, columns=['x', 'y'])
+        gm = GaussianMultivariate(distribution=U.GaussianUnivariate)
+        gm.fit(data)
+        gu = U.GaussianUnivariate()
+        gu.fit(xy[:, 0])
+        uu = U.UniformUnivariate()
+        uu.fit(xy[:, 1])
+
+        def clone(proto):
+            def build(seed):
+                m = copy.deepcopy(proto)
+                m.set_random_state(seed)
+                return m
+            return build
+
+        def clayton(seed):
+            c = Clayton(random_state=seed)
+            c.theta, c.tau = 2.0, 0.5
+            return c
+        _SIZE = [('GaussianMultivariate(2 cols, gauss)', 'GaussianMultivariate', clone(gm)),
+                 ('Clayton(2.0)', 'Clayton', clayton),
+                 ('GaussianUnivariate', 'GaussianUnivariate', clone(gu)),
+                 ('UniformUnivariate', 'UniformUnivariate', clone(uu))]
+    return _SIZE
 
 
 _COND = None
